@@ -415,6 +415,9 @@ theorem flush_flush {c k k' s s'} (h : flush c k s = .ok s') (hi : s.pending.isS
   cases s'
   simp_all
 
+/-- the number of the line that follows the lines `ls`, the first of which has number `k` -/
+def lineAfter (k : Nat) (ls : List Line) : Nat := ls.foldl (fun k l => l.next k) k
+
 theorem firstSyntaxError_append {k ls e} (he : e.fault = none) :
     firstSyntaxError k (ls ++ [e]) = firstSyntaxError k ls := by
   induction ls generalizing k with
@@ -426,25 +429,25 @@ theorem firstSyntaxError_append {k ls e} (he : e.fault = none) :
     · exact ih
 
 theorem runLines_append {c} (ls ms : List Line) : ∀ k s,
-    runLines c k s (ls ++ ms) = (runLines c k s ls >>= fun s' => runLines c (k + ls.length) s' ms) := by
+    runLines c k s (ls ++ ms) = (runLines c k s ls >>= fun s' => runLines c (lineAfter k ls) s' ms) := by
   induction ls with
-  | nil => intro k s; simp [runLines, bind, Except.bind]
+  | nil => intro k s; simp [runLines, lineAfter, bind, Except.bind]
   | cons l ls ih =>
     intro k s
-    simp only [List.cons_append, runLines, List.length_cons]
+    simp only [List.cons_append, runLines]
     cases h : stepLine c k s l with
     | error e => simp [bind, Except.bind]
     | ok s1 =>
       simp only [bind, Except.bind]
-      have := ih (k + 1) s1
+      have := ih (l.next k) s1
       simp only [bind, Except.bind] at this
       rw [this]
-      have e : k + 1 + ls.length = k + (ls.length + 1) := by omega
-      rw [e]
+      rfl
 
 /-- the line an editor adds at the very end: nothing on it, not even blanks -/
 def emptyLine (crlf : Bool) : Line :=
-  { stmt := none, refs := [], deps := [], offs := false, fault := none, comment := none, textEmpty := true, crlf := crlf }
+  { stmt := none, refs := [], deps := [], offs := false, fault := none, comment := none, textEmpty := true, crlf := crlf,
+    inner := 0 }
 
 theorem readText_final_newline (c : Ctx) (ls : List Line) (w : W) (b : Bool) :
     okPart (readText c (ls ++ [emptyLine b]) w) = okPart (readText c ls w) := by
@@ -455,25 +458,30 @@ theorem readText_final_newline (c : Ctx) (ls : List Line) (w : W) (b : Bool) :
   | none =>
     simp only
     rw [runLines_append]
+    generalize lastLine 1 (ls ++ [emptyLine b]) = k2
+    generalize lastLine 1 ls = k1
+    generalize lineAfter 1 ls = k0
     cases hr : runLines c 1 (St.init w) ls with
     | error e => simp [bind, Except.bind, okPart]
     | ok s1 =>
       have hinv := (runLines_rinv ls _ _ _ _ hr (RInv_init w)).1
       simp only [bind, Except.bind, runLines, stepLine, emptyLine, addLineComment, if_true]
-      cases hf : flush c (1 + ls.length) s1 with
+      cases hf : flush c k0 s1 with
       | error e =>
-        have h2 := flush_line_okPart c (1 + ls.length) (max 1 ls.length) s1
+        have h2 := flush_line_okPart c k0 k1 s1
         rw [hf] at h2
-        cases hf2 : flush c (max 1 ls.length) s1 with
+        cases hf2 : flush c k1 s1 with
         | error e2 => simp [okPart]
         | ok s2 => rw [hf2] at h2; simp [okPart] at h2
       | ok s2 =>
-        rw [flush_line hf (k' := max 1 ls.length)]
+        rw [flush_line hf (k' := k1)]
         simp only
         rw [flush_flush hf hinv]
 
 theorem stepLine_crlf (c : Ctx) (k : Nat) (s : St) (l : Line) (b : Bool) :
     stepLine c k s { l with crlf := b } = stepLine c k s l := rfl
+
+theorem next_crlf (k : Nat) (l : Line) (b : Bool) : ({ l with crlf := b } : Line).next k = l.next k := rfl
 
 theorem runLines_crlf (c : Ctx) (b : Bool) (ls : List Line) : ∀ k s,
     runLines c k s (ls.map fun l => { l with crlf := b }) = runLines c k s ls := by
@@ -481,7 +489,7 @@ theorem runLines_crlf (c : Ctx) (b : Bool) (ls : List Line) : ∀ k s,
   | nil => intro k s; rfl
   | cons l ls ih =>
     intro k s
-    simp only [List.map_cons, runLines, stepLine_crlf]
+    simp only [List.map_cons, runLines, stepLine_crlf, next_crlf]
     cases stepLine c k s l with
     | error e => rfl
     | ok s1 => simp only [bind, Except.bind]; exact ih _ _
@@ -490,12 +498,24 @@ theorem firstSyntaxError_crlf (b : Bool) (ls : List Line) : ∀ k,
     firstSyntaxError k (ls.map fun l => { l with crlf := b }) = firstSyntaxError k ls := by
   induction ls with
   | nil => intro k; rfl
-  | cons l ls ih => intro k; simp only [List.map_cons, firstSyntaxError]; rw [ih]
+  | cons l ls ih => intro k; simp only [List.map_cons, firstSyntaxError, next_crlf]; rw [ih]
+
+theorem lastLine_crlf (b : Bool) (ls : List Line) : ∀ k,
+    lastLine k (ls.map fun l => { l with crlf := b }) = lastLine k ls := by
+  induction ls with
+  | nil => intro k; rfl
+  | cons l ls ih =>
+    intro k
+    cases ls with
+    | nil => rfl
+    | cons l' ls' =>
+      simp only [List.map_cons, lastLine, next_crlf]
+      exact ih _
 
 theorem readText_crlf (c : Ctx) (ls : List Line) (w : W) (b : Bool) :
     readText c (ls.map fun l => { l with crlf := b }) w = readText c ls w := by
   unfold readText
-  rw [firstSyntaxError_crlf, runLines_crlf, List.length_map]
+  rw [firstSyntaxError_crlf, runLines_crlf, lastLine_crlf]
 
 theorem Spec.of_insert (ls₁ ls₂ : List Line) (l : Line) (h : l.stmt = none) :
     Spec.of (ls₁ ++ l :: ls₂) = Spec.of (ls₁ ++ ls₂) := by
